@@ -234,7 +234,7 @@ class Std:
                     outs = self.shell_outs.get(d)
                     if outs is None:
                         outs = self.shell_outs.get(pre, self.default_out if pre in (b'shell:', b'exec:') else [])
-                    return sim.OutputService(outs)
+                    return sim.OutputService(outs, dup_clse=getattr(self, 'dup_clse', False))
             return None
 
         self.dev = sim.SimDevice(ctx, services, maxdata=maxdata, auth=auth, rid_alloc=rid_alloc, pick=pick, gate=gate, monitor=monitor, reorder=reorder)
